@@ -420,6 +420,12 @@ func writeBodyStream(req *protocol.Request, w network.Writer) error {
 	var err error
 
 	contentLength := req.Header.ContentLength()
+	if contentLength == 0 && len(req.Header.ContentLengthBytes()) == 0 {
+		// The length of a stream is kept in the header only. It has been taken back
+		// (Header.Del, another header copied over this one): the stream is one of
+		// unknown length, not a request without body and framing.
+		contentLength = -1
+	}
 	if contentLength < 0 {
 		lrSize := ext.LimitedReaderSize(req.BodyStream())
 		if lrSize >= 0 {
